@@ -10,7 +10,7 @@ from . import tlc
 from .programs import to_tla
 
 TRACE_CONSTS = {"MaxCrashes": 99, "MaxWithhold": 999, "MaxSweeps": 999, "MaxCancels": 99, "MaxSignals": 99,
-                "MaxEarly": 99, "MaxPauses": 99, "MaxRestarts": 99, "MaxRegions": 99, "MaxFaults": 99, "EnvBetween": "TRUE", "AnyOrder": "TRUE", "SplitSweep": "TRUE"}
+                "MaxEarly": 99, "MaxPauses": 99, "MaxRestarts": 99, "MaxRegions": 99, "MaxFaults": 99, "MaxAdds": 99, "EnvBetween": "TRUE", "AnyOrder": "TRUE", "SplitSweep": "TRUE"}
 
 
 def parse_prefix(out: str) -> list[int] | None:
